@@ -363,6 +363,7 @@ func genKv(r *rand.Rand, tier string) kvInput {
 	}
 	// one case in three is about views: a design document from the start, a view query every fourth step
 	viewy := r.Intn(3) == 0
+	idView := false
 	viewColl := "_default._default"
 	if viewy {
 		if exists["s1.c1"] && r.Intn(3) == 0 {
@@ -373,6 +374,10 @@ func genKv(r *rand.Rand, tier string) kvInput {
 			// string keys: their order is a matter of Unicode collation, not of bytes
 			stringBodies = true
 			perm[0] = pick(r, []int{4, 9, 4})
+		}
+		if r.Intn(2) == 0 {
+			perm[1] = pick(r, []int{1, 1, 6}) // emits the document's id: every bound drawn from the ids falls ON a row
+			idView = true
 		}
 		in.Ops = append(in.Ops, Step{Kind: "putddoc", Coll: viewColl, Handle: 0, DDoc: "dd",
 			Views: []ViewDef{{Name: "v0", Map: perm[0]}, {Name: "v1", Map: perm[1]}, {Name: "v2", Map: perm[2]}}, Clock: next()})
@@ -409,7 +414,7 @@ func genKv(r *rand.Rand, tier string) kvInput {
 		case x == 0 || x == 10:
 			in.Ops = append(in.Ops, Step{Kind: "purge", Handle: r.Intn(in.Handles), Fresh: r.Intn(2) == 0, Clock: next()})
 		case x == 1 && exists["s1.c2"]:
-			in.Ops = append(in.Ops, Step{Kind: "drop", Coll: "s1.c2", Handle: r.Intn(in.Handles), Clock: next()})
+			in.Ops = append(in.Ops, Step{Kind: "drop", Coll: "s1.c2", Handle: r.Intn(in.Handles), Fresh: r.Intn(3) == 0, Clock: next()})
 			exists["s1.c2"] = false
 		case x == 2 && !exists["s1.c2"]:
 			in.Ops = append(in.Ops, Step{Kind: "create", Coll: "s1.c2", Handle: r.Intn(in.Handles), Clock: next()})
@@ -427,7 +432,7 @@ func genKv(r *rand.Rand, tier string) kvInput {
 		case x == 3 || x == 8:
 			in.Ops = append(in.Ops, Step{Kind: "expire", Clock: next()})
 		case x >= 11 && x <= 14:
-			st := Step{Kind: "query", Coll: pick(r, live), Handle: r.Intn(in.Handles), Q: pick(r, []string{"QIds", "QBodies", "QCount", "QIdEq", "QBodyA1", "QXattrRev", "QSync", "QLast2", "QSyncFirst", "QBodyAEq", "QCross", "QUser", "QUser"}), Clock: next()}
+			st := Step{Kind: "query", Coll: pick(r, live), Handle: r.Intn(in.Handles), Q: pick(r, []string{"QIds", "QBodies", "QCount", "QIdEq", "QBodyA1", "QXattrRev", "QSync", "QLast2", "QSyncFirst", "QBodyAEq", "QCross", "QUser", "QUser", "QLit"}), Clock: next()}
 			switch st.Q {
 			case "QIdEq":
 				st.Arg = pick(r, kvKeys)
@@ -502,6 +507,20 @@ func genKv(r *rand.Rand, tier string) kvInput {
 			}
 		}
 	}
+	if idView {
+		// ranges whose ends are keys of the index, in both directions, with the end taken in or left out
+		ids := []string{`"k1"`, `"k2"`, `"k3"`}
+		for j := 0; j < 3; j++ {
+			vp := &ViewParams{Descending: r.Intn(2) == 0, NoReduce: r.Intn(2) == 0, ExclusiveEnd: r.Intn(2) == 0}
+			if r.Intn(4) > 0 {
+				vp.EndKey = sp(pick(r, ids))
+			}
+			if r.Intn(2) == 0 {
+				vp.StartKey = sp(pick(r, ids))
+			}
+			in.Ops = append(in.Ops, Step{Kind: "view", Coll: viewColl, Handle: r.Intn(in.Handles), DDoc: "dd", View: "v1", VP: vp, Clock: next()})
+		}
+	}
 	return in
 }
 
@@ -527,6 +546,8 @@ const (
 	motifXattrView
 	motifShortXattrs
 	motifSweepWindow
+	motifDropBesideViews
+	motifFutureCas
 	numMotifs
 )
 
@@ -871,6 +892,86 @@ func genMotif(r *rand.Rand, m int, in *kvInput, exists map[string]bool, hot []st
 			}
 		}
 		kv(read())
+	case motifFutureCas:
+		// a document whose version number (given by the caller of a WithMeta write) is ahead of the clock: the writes
+		// that follow get their timestamps from the clock all the same, each replaces the version it names and only that
+		future := uint64(1)<<61 + uint64(r.Intn(1<<20))
+		if r.Intn(3) == 0 {
+			kv(inserter())
+		}
+		if r.Intn(4) == 0 {
+			kv(&KOp{Kind: "DeleteWithMeta", CasMode: pick(r, []string{"current", "zero"}), NewCas: future})
+		} else {
+			x := []XKV{{Name: "_sync", Val: sp(pick(r, xattrVals))}}
+			if r.Intn(2) == 0 {
+				x = append(x, XKV{Name: "u1", Val: sp(pick(r, xattrVals))})
+			}
+			kv(&KOp{Kind: "SetWithMeta", CasMode: pick(r, []string{"current", "zero"}), NewCas: future, Val: sp(pick(r, jsonBodies)), IsJSON: true, XObj: &x})
+		}
+		for j, m := 0, 2+r.Intn(3); j < m; j++ {
+			switch r.Intn(5) {
+			case 0:
+				kv(bodyWrite())
+			case 1:
+				kv(&KOp{Kind: pick(r, []string{"Touch", "GetAndTouchRaw"}), Exp: genExp(r)})
+			case 2:
+				kv(deleter())
+			default:
+				kv(xattrWrite())
+			}
+			if r.Intn(2) == 0 {
+				// the version just replaced is named again: refused
+				o := xattrWrite()
+				if o.CasMode != "" {
+					o.CasMode = "stale"
+				}
+				kv(o)
+			}
+		}
+		kv(read())
+	case motifDropBesideViews:
+		// A collection that has design documents of its own is dropped beside a collection whose views are built:
+		// what those views answer must not change (rows of the tables behind design documents, views and the index
+		// are numbered independently - a drop that confuses the numberings takes rows of a neighbour along).
+		if cn == "s1.c2" {
+			cn = "_default._default"
+		}
+		if !exists["s1.c2"] {
+			in.Ops = append(in.Ops, Step{Kind: "create", Coll: "s1.c2", Handle: r.Intn(in.Handles), Clock: next()})
+			exists["s1.c2"] = true
+		}
+		perm := r.Perm(numMaps)
+		put := func(c, dd string, n int) {
+			var vs []ViewDef
+			for j := 0; j < n; j++ {
+				vs = append(vs, ViewDef{Name: fmt.Sprintf("v%d", j), Map: pick(r, []int{1, 1, 0, perm[j]})})
+			}
+			in.Ops = append(in.Ops, Step{Kind: "putddoc", Coll: c, Handle: r.Intn(in.Handles), DDoc: dd, Views: vs, Clock: next()})
+		}
+		put(cn, "dd", 2+r.Intn(2))
+		if r.Intn(3) == 0 {
+			put(cn, "dd2", 1+r.Intn(2))
+		}
+		for _, k2 := range kvKeys {
+			in.Ops = append(in.Ops, Step{Kind: "kv", Coll: cn, Key: k2, Handle: h, Op: &KOp{Kind: "Set", Val: sp(pick(r, jsonBodies[:4]))}, Clock: next()})
+		}
+		put("s1.c2", "dd", 1+r.Intn(2))
+		if r.Intn(2) == 0 {
+			put("s1.c2", "dd2", 1+r.Intn(2))
+		}
+		in.Ops = append(in.Ops, Step{Kind: "kv", Coll: "s1.c2", Key: key, Handle: h, Op: &KOp{Kind: "Set", Val: sp(pick(r, jsonBodies[:4]))}, Clock: next()})
+		for j := 0; j < 3; j++ {
+			in.Ops = append(in.Ops, Step{Kind: "view", Coll: cn, Handle: r.Intn(in.Handles), DDoc: "dd", View: fmt.Sprintf("v%d", j), VP: &ViewParams{NoReduce: r.Intn(2) == 0}, Clock: next()})
+		}
+		if r.Intn(2) == 0 {
+			in.Ops = append(in.Ops, Step{Kind: "view", Coll: "s1.c2", Handle: r.Intn(in.Handles), DDoc: "dd", View: "v0", VP: &ViewParams{}, Clock: next()})
+		}
+		in.Ops = append(in.Ops, Step{Kind: "drop", Coll: "s1.c2", Handle: r.Intn(in.Handles), Fresh: r.Intn(3) == 0, Clock: next()})
+		exists["s1.c2"] = false
+		for j := 0; j < 3; j++ {
+			in.Ops = append(in.Ops, Step{Kind: "view", Coll: cn, Handle: r.Intn(in.Handles), DDoc: "dd", View: fmt.Sprintf("v%d", j), VP: &ViewParams{Stale: r.Intn(4) == 0, NoReduce: r.Intn(2) == 0}, Clock: next()})
+		}
+		in.Ops = append(in.Ops, Step{Kind: "getddocs", Coll: cn, Handle: r.Intn(in.Handles), Clock: next()})
 	case motifSweepWindow:
 		// The expiry timer fires; between the sweep's query of one collection and its removals the documents it read
 		// are written again - with no expiry, a later one, another one that has passed too, deleted, touched - and
